@@ -31,6 +31,11 @@ for _role in ("server", "client"):
                                       ("aes128-gcm@openssh.com", False, 1), ("aes128-cbc", True, 1),
                                       ("aes256-ctr", False, 0), ("aes128-ctr", True, 2)):
         SITUATIONS.append((_role, "Transport", True, False, _cipher, _strict, _rekeys))
+# compression negotiated (the payload of an unrecognised message goes through the shared inflate stream)
+for _role in ("server", "client"):
+    for _comp in ("zlib", "zlib@openssh.com"):
+        SITUATIONS.append((_role, "Transport", True, False, None, True, 0, _comp))
+SIZE_LADDER = [0, 1, 32768, 262143, 262144, 262145, 1048576]
 MAX_DEATHS = 6
 
 
@@ -57,7 +62,10 @@ def canon_model(reply):
 def observe(pair, si0, so0, extra_in):
     """canonical observation of the subject after a barrier; the barrier's own packets are subtracted"""
     sub = pair.subject
-    alive = pair.barrier()
+    pair.barrier_timed_out = False
+    alive = pair.barrier(limit=12, soft=True)
+    if not alive and pair.barrier_timed_out:
+        return (0, "request-unanswered", L.seq_in(sub), L.seq_out(sub), [(3, a) for a in pair.unimpl])
     if alive:
         err = "-"
         si, so = L.seq_in(sub) - 1, L.seq_out(sub) - 1
@@ -144,7 +152,8 @@ def run(ctx):
     ctx.rule = ("exhaustive: every type number 0..255 for which the live tables of the subject transport have no "
                 "handler, in 20 situations (server/client x Transport/ServiceRequestingTransport x packet hexdump off/on; server/client x "
                 "cipher family ctr/cbc/gcm x strict kex on/off, some after re-exchanges; auth handler "
-                "std/only) and, for both roles, once more while a re-exchange started by the subject is in flight "
+                "std/only; with zlib and zlib@openssh.com negotiated: 24 types plus payloads of 0 B … 1 MiB of zeros) and, for "
+                "both roles, once more while a re-exchange started by the subject is in flight "
                 "(own KEXINIT sent, peer's not yet processed), each with a fresh random payload (0..3000 bytes; thorough: 3 payloads, up to "
                 "20000), sent by a real authenticated peer; plus batches of 3..20 unhandled packets without a "
                 "barrier in between and the other loop branches (IGNORE, DEBUG, DISCONNECT, dead/unknown channel, "
@@ -162,13 +171,17 @@ def run(ctx):
     reps = 3 if ctx.thorough else 1
     n_batches = 12 if ctx.thorough else 4
 
-    for role, cls, auth, hexdump, cipher, strict, rekeys in SITUATIONS:
-        sit_name = "%s/%s/%s%s%s%s%s" % (role, cls, "auth" if auth else "noauth", "/hexdump" if hexdump else "",
-                                       "/" + cipher if cipher else "", "" if strict else "/non-strict",
-                                       "/after-%d-rekeys" % rekeys if rekeys else "")
+    for situation in SITUATIONS:
+        role, cls, auth, hexdump, cipher, strict, rekeys = situation[:7]
+        comp = situation[7] if len(situation) > 7 else None
+        sit_name = "%s/%s/%s%s%s%s%s%s" % (role, cls, "auth" if auth else "noauth", "/hexdump" if hexdump else "",
+                                         "/" + cipher if cipher else "", "" if strict else "/non-strict",
+                                         "/after-%d-rekeys" % rekeys if rekeys else "", "/" + comp if comp else "")
 
         def make_pair():
-            p_ = L.Pair(role, cls, auth, strict=strict, cipher=cipher)
+            p_ = L.Pair(role, cls, auth, strict=strict, cipher=cipher, compression=comp)
+            if comp and (p_.subject.local_compression, p_.subject.remote_compression) != (comp, comp):
+                raise InfraError("compression %s not negotiated" % comp)
             p_.subject.set_hexdump(hexdump)
             if cipher and p_.subject.remote_cipher != cipher:
                 raise InfraError("cipher %s not negotiated" % cipher)
@@ -222,8 +235,46 @@ def run(ctx):
                     ",".join(map(str, chans)) or "-", ",".join(map(str, seen)) or "-")
                 return st, si0, so0, obs, case, seqs
 
+            # ---- with compression: a sample of the types, and one type with payloads from nothing to a mebibyte of
+            # zeros (about a kilobyte on the wire), each followed by the round trip of the barrier
+            ladder = []
+            if comp:
+                big_t = rng.choice([t for t in unhandled if t not in (3,)])
+                ladder = [(big_t, b"\0" * n) for n in SIZE_LADDER] + [(3, b"\0" * 262145)]
+                for t, p in ladder:
+                    if deaths >= MAX_DEATHS:
+                        break
+                    st, si0, so0, obs, case, seqs = one([(t, p)], "unhandled-type-compressed")
+                    case["payload_bytes"] = len(p)
+                    ctx.case((sit_name, t, len(p)), True)
+                    ctx.dist("compressed-payload:%d" % len(p))
+                    # (the model never looks at the payload: it gets the first 64 bytes)
+                    cases.append(("step %s %d %d %d %s 0" % (st, si0, so0, t, hx(p[:64])), obs, case, None))
+                    want = [] if t == 3 else [(3, seqs[0])]
+                    active, err, si, so, got = obs
+                    if err == "request-unanswered":
+                        ctx.fail("session-stops-answering-after-unhandled-type:compressed", case,
+                                 "after type %d with %d payload bytes (compression %s) a global request is no longer "
+                                 "answered although both transports run; replies seen: %r" % (t, len(p), comp, got))
+                        deaths += 1
+                        fresh()
+                        sit = pair.situation()
+                        continue
+                    if not active or err != "-":
+                        e = L.root_exc(pair.subject.saved_exception)
+                        ctx.fail("unhandled-type-kills-session:" + (exc_site(e) if e is not None else "loop-left"),
+                                 case, "subject inactive after type %d with %d payload bytes (compression %s): %r"
+                                 % (t, len(p), comp, e))
+                        deaths += 1
+                        fresh()
+                        sit = pair.situation()
+                        continue
+                    if got != want:
+                        ctx.fail("wrong-unimplemented-reply:compressed", case, "peer received %r, expected %r" % (got, want))
+                    if so - so0 != len(want):
+                        ctx.fail("extra-messages-sent", case, "subject sent %d messages, expected %d" % (so - so0, len(want)))
             # ---- exhaustive over the unhandled types
-            for t in unhandled:
+            for t in (unhandled if not comp else rng.sample(unhandled, 24)):
                 for _ in range(reps):
                     if deaths >= MAX_DEATHS:
                         ctx.dist("skipped-after-%d-dead-sessions" % MAX_DEATHS)
